@@ -452,6 +452,25 @@ def r8(run, tu):
             run.ob('R8/success-only-after-check', name, v, ok, tu.where(n.ast), 'facts: %s' % sorted(f))
 
 
+def r9(run, tu):
+    """a value that does not even convert to 64 bits leaves convert_from_object with the error the conversion set (OverflowError for a
+    too large int, TypeError for a non-number): the path from a failed conversion goes straight to `return -1` -- it does not clear the
+    error, and does not go through _convert_overflow(), whose str(value) raises ValueError for ints beyond the interpreter's digit limit"""
+    fn = 'convert_from_object'
+    g = cfg_of(tu, fn)
+    fails = [n for n in g.nodes if n.kind == 'cond' and cx.render(n.ast).replace(' ', '') == 'PyErr_Occurred()' and
+             any(re.match(r'^T:value == (\(unsigned long long\))?-1$', f) or 'value == ' in f and '-1' in f and f.startswith('T:') for f in g.fact_texts(n.id))]
+    run.need(len(fails) >= 2, '%s: the failure tests after the two 64-bit conversions were not found (%d)' % (fn, len(fails)))
+    bad_calls = ('PyErr_Clear', '_convert_overflow', 'PyErr_Restore', 'PyErr_SetString', 'PyErr_Format')
+    for n in fails:
+        t = [x for x, l in n.succ if l == 'T']
+        r = g.reach(t)
+        touched = sorted({cx.callee_name(c) for i in r if g.nodes[i].ast is not None for c in cx.calls_in(g.nodes[i].ast) if cx.callee_name(c) in bad_calls})
+        rets = {rules.return_value(g.nodes[i]) for i in r if g.nodes[i].kind == 'return'}
+        run.ob('R9/failed-64-bit-conversion-propagates-its-own-error', fn, 'if (value == -1 && PyErr_Occurred()) return -1', not touched and rets == {'-1'}, tu.where(n.ast),
+               'after the failed conversion the path calls %s and returns %s: the error class the caller sees is no longer the conversion\'s (OverflowError)' % (touched, sorted(rets)))
+
+
 def check(run):
     run.explanation = (
         'Range constants of the eight API-mode integer converters are recovered by constant-folding the comparison '
@@ -471,11 +490,13 @@ def check(run):
     na, nr = r6_r7(run, tu, thorough)
     run.need(na >= 20 and nr >= 20, 'generated conversions found: %d args, %d results' % (na, nr))
     r8(run, tu)
+    r9(run, tu)
     run.min_instances('R1/accepted-range-is-the-N-bit-range', 8)
     run.min_instances('R3/range-check-before-store', 2)
     run.min_instances('R5/macro-slot-names-the-function', 25)
     run.min_instances('R5/verify-header-slot-names-the-function', 20)
     run.min_instances('R8', 2)
+    run.min_instances('R9', 2)
     run.exhaustive = True
     run.assume('memcpy-based write_raw_integer_data/read_raw_*_data are inverse on the low `size` bytes (not decided here)')
     run.assume('global-variable stores through dlsym\'ed addresses use the same convert_from_object (not separately analysed)')
